@@ -186,6 +186,28 @@ def blocks_to_bytes(
     if isinstance(block_type, Function) and block_type.docstring is not None:
         constants[0] = block_type.docstring
 
+    # Record the arg value of every instruction and additional arg first, so that
+    # the number of cellvars is known before any instruction sizes are computed
+    for block_index, block in enumerate(blocks):
+        for instruction_index, instruction in enumerate(block):
+            args[block_index, instruction_index] = from_arg(
+                instruction.arg,
+                block_type,
+                freevars,
+                names,
+                varnames,
+                cellvars,
+                constants,
+            )
+    for arg in additional_args:
+        from_arg(arg, block_type, freevars, names, varnames, cellvars, constants)
+
+    # The freevars are indexed after all the cellvars
+    for block_index, block in enumerate(blocks):
+        for instruction_index, instruction in enumerate(block):
+            if isinstance(instruction.arg, Freevar):
+                args[block_index, instruction_index] += len(cellvars)
+
     # Iterate through all blocks and change jump instructions to offsets
     while changed_instruction_lengths:
 
@@ -240,18 +262,6 @@ def blocks_to_bytes(
                     ):
                         changed_instruction_lengths = True
                     args[block_index, instruction_index] = new_arg_value
-
-    # Process all additional arg to record their values
-    for arg in additional_args:
-        from_arg(arg, block_type, freevars, names, varnames, cellvars, constants)
-
-    # Now that we know the total number of cellvars, incremement all the freevar
-    # indices by the number of cellvars, for each arg
-    for block_index, block in enumerate(blocks):
-        for instruction_index, instruction in enumerate(block):
-            arg = instruction.arg
-            if isinstance(arg, Freevar):
-                args[block_index, instruction_index] += len(cellvars)
 
     # Finally go assemble the bytes and the line mapping
     bytes_: list[int] = []
